@@ -52,6 +52,7 @@ type fakeCam struct {
 	faultFired bool
 	playing    bool
 	done       chan struct{}
+	peer       *sim.Conn // the pull client's end of the connection
 }
 
 const camRealm = "IPCAM"
@@ -272,7 +273,7 @@ func (f *camFarm) dial(network, address string, timeout time.Duration) (net.Conn
 		return nil, &net.OpError{Op: "dial", Net: network, Err: fmt.Errorf("connection refused")}
 	}
 	cc, sc := f.w.NewConnPair(fmt.Sprintf("cam%d", n), 256<<10)
-	cam := &fakeCam{w: f.w, id: n, plan: plan, conn: sc, addr: address, done: make(chan struct{})}
+	cam := &fakeCam{w: f.w, id: n, plan: plan, conn: sc, peer: cc, addr: address, done: make(chan struct{})}
 	f.mu.Lock()
 	f.cams = append(f.cams, cam)
 	f.mu.Unlock()
